@@ -77,6 +77,16 @@ FamText(fm, n) == Rep(fm.pre, n) \o fm.core \o Rep(fm.post, n)
 Stable == {"paren", "not", "pipe", "neg", "or", "addneg", "ornot", "orparen", "orlist"}
 FlatFam == {"or", "addneg", "ornot", "orparen", "orlist", "pipe", "index", "flatten"}
 
+\* deep DOCUMENTS: [[[ ... 1 ... ]]] nested d levels; expressions whose outcome
+\* does not depend on d (checked for d = 2..6 by DepthLemma) and is a scalar
+RECURSIVE Nest(_)
+Nest(d) == IF d = 0 THEN JInt(1) ELSE Arr(<<Nest(d - 1)>>)
+DocExprs == << <<CurT, EqT, CurT>>, <<CurT, NeT, CurT>>, Fn(<<108,101,110,103,116,104>>, <<CurT>>), Fn(<<116,121,112,101>>, <<CurT>>),
+               Fn(<<99,111,110,116,97,105,110,115>>, <<CurT, Comma, CurT>>), Fn(<<99,111,110,116,97,105,110,115>>, <<CurT, Comma, NumLit(<<49>>)>>),
+               <<LB, IntT(<<48>>), RB, EqT, CurT>>, Fn(<<116,121,112,101>>, Fn(<<110,111,116,95,110,117,108,108>>, <<CurT>>)),
+               Fn(<<108,101,110,103,116,104>>, Fn(<<116,111,95,97,114,114,97,121>>, <<CurT>>)), <<NotT, CurT>>, Fn(<<116,121,112,101>>, <<CurT, Flat>>),
+               Fn(<<108,101,110,103,116,104>>, <<CurT, LB, Star, RB>>), <<CurT, LB, IntT(<<48>>), RB, LB, IntT(<<48>>), RB, EqT, CurT, LB, IntT(<<48>>), RB>> >>
+
 Check == idx > 0 =>
   LET m   == Mags[bucket]
       big == TemplateSeq(m)
@@ -89,8 +99,13 @@ Check == idx > 0 =>
                              pre |-> Render(Families[i].pre), core |-> Render(Families[i].core), post |-> Render(Families[i].post),
                              adm |-> Admissible(FamText(Families[i], 3), Doc),
                              stable |-> Families[i].f \in Stable, flat |-> Families[i].f \in FlatFam] : i \in 1..Len(Families) }]
+      docscale == [p |-> Prop, kind |-> "docscale",
+                   multi |-> { [expr |-> Render(DocExprs[i]), adm |-> Admissible(DocExprs[i], Nest(4))] : i \in 1..Len(DocExprs) }]
   IN /\ Emit => PrintT("CASE " \o ToJson(case))
      /\ (Emit /\ bucket = 1) => PrintT("CASE " \o ToJson(scale))
+     /\ (Emit /\ bucket = 1) => PrintT("CASE " \o ToJson(docscale))
+     /\ Named(bucket # 1 \/ \A i \in 1..Len(DocExprs) : \A d \in 3..6 :
+                 Admissible(DocExprs[i], Nest(d)) = Admissible(DocExprs[i], Nest(4)), "DepthLemma")
      \* magnitude independence in the specification: once beyond every length
      \* the outcome equals that of the twin
      \* (a JSON number literal of more than 8 digits is outside the small-
